@@ -42,6 +42,7 @@ type Pair struct {
 	Src string `json:"src"`         // path | str | num | bool | gt | not | tern
 	Arg string `json:"arg"`         // path name / literal text
 	N   int    `json:"n,omitempty"` // gt: `Arg > N`
+	X   *Expr  `json:"x,omitempty"` // Src expr: the value is this expression
 	// not:  `!Arg`                         (Arg is a path holding a bool)
 	// tern: `Arg ? Then : Else`, with Neg `!Arg ? Then : Else`; Alt says what Then / Else are:
 	//       str (written in single quotes), num, path
@@ -70,6 +71,11 @@ type Attr struct {
 	Post  string `json:"post,omitempty"`
 	Gt    *int   `json:"gt,omitempty"`
 	Pairs []Pair `json:"pairs,omitempty"`
+	// spelling (spell_test.go): none of these changes what the attribute means
+	X     *Expr  `json:"x,omitempty"`     // bind / vbind / show: the value is this expression instead of the path Text
+	Upper bool   `json:"upper,omitempty"` // the attribute name is written in upper case (:TITLE, V-SHOW, [DATA-X])
+	Quote string `json:"quote,omitempty"` // "" double quotes, "'" single quotes, "none" unquoted (where the value allows it)
+	Obj   string `json:"obj,omitempty"`   // object syntax layout: "" `{a: x, b: y}`, tight `{a:x,b:y}`, comma (trailing comma), lines (one entry per line, trailing comma)
 }
 
 // Case is one element inside a small wrapper.
@@ -148,6 +154,8 @@ func pairSrc(p Pair) string {
 		return fmt.Sprintf("%s: %s > %d", k, p.Arg, p.N)
 	case "not":
 		return k + ": !" + p.Arg
+	case "expr":
+		return k + ": " + p.X.src()
 	case "tern":
 		alt := func(t string) string {
 			if p.Alt == "str" {
@@ -165,7 +173,6 @@ func pairSrc(p Pair) string {
 }
 
 func attrSrc(a Attr) string {
-	q := func(n, v string) string { return n + `="` + v + `"` }
 	// literal text of static / interpolated / bracketed values: & and " are written as references
 	esc := func(v string) string {
 		// a carriage return is written as a reference: a raw CR would be turned into LF by the
@@ -173,42 +180,76 @@ func attrSrc(a Attr) string {
 		v = strings.ReplaceAll(strings.ReplaceAll(v, "&", "&amp;"), `"`, "&quot;")
 		return strings.ReplaceAll(v, "\r", "&#13;")
 	}
+	var n, v string
 	switch a.Kind {
 	case "static":
-		return q(a.Name, esc(a.Text))
+		n, v = a.Name, esc(a.Text)
 	case "interp":
-		return q(a.Name, esc(a.Text)+"{{ "+a.Path+" }}"+esc(a.Post))
-	case "bind":
-		return q(":"+a.Name, a.Text)
-	case "vbind":
-		return q("v-bind:"+a.Name, a.Text)
+		n, v = a.Name, esc(a.Text)+"{{ "+a.Path+" }}"+esc(a.Post)
+	case "bind", "vbind":
+		n, v = ":"+a.Name, a.Text
+		if a.Kind == "vbind" {
+			n = "v-bind:" + a.Name
+		}
+		if a.X != nil {
+			v = a.X.src()
+		}
 	case "obj", "vobj":
 		var ps []string
 		for _, p := range a.Pairs {
 			ps = append(ps, pairSrc(p))
 		}
-		n := ":" + a.Name
+		n = ":" + a.Name
 		if a.Kind == "vobj" {
 			n = "v-bind:" + a.Name
 		}
-		return q(n, "{"+strings.Join(ps, ", ")+"}")
-	case "show":
-		if a.Gt != nil {
-			return q("v-show", fmt.Sprintf("%s > %d", a.Text, *a.Gt))
+		switch a.Obj {
+		case "tight":
+			for i := range ps {
+				ps[i] = strings.Replace(ps[i], ": ", ":", 1)
+			}
+			v = "{" + strings.Join(ps, ",") + "}"
+		case "comma":
+			v = "{" + strings.Join(ps, ", ") + ",}"
+		case "lines":
+			v = "{\n    " + strings.Join(ps, ",\n    ") + ",\n  }"
+		default:
+			v = "{" + strings.Join(ps, ", ") + "}"
 		}
-		return q("v-show", a.Text)
+	case "show":
+		n, v = "v-show", a.Text
+		if a.Gt != nil {
+			v = fmt.Sprintf("%s > %d", a.Text, *a.Gt)
+		}
+		if a.X != nil {
+			v = a.X.src()
+		}
 	case "dir":
 		if a.Text == "" {
+			if a.Upper {
+				return strings.ToUpper(a.Name)
+			}
 			return a.Name
 		}
-		return q(a.Name, a.Text)
+		n, v = a.Name, a.Text
 	case "lit":
+		n, v = "["+a.Name+"]", esc(a.Text)
 		if a.Path != "" {
-			return q("["+a.Name+"]", esc(a.Text)+"{{ "+a.Path+" }}"+esc(a.Post))
+			v = esc(a.Text) + "{{ " + a.Path + " }}" + esc(a.Post)
 		}
-		return q("["+a.Name+"]", esc(a.Text))
+	default:
+		return ""
 	}
-	return ""
+	if a.Upper {
+		n = strings.ToUpper(n) // attribute names are case-insensitive in HTML
+	}
+	switch {
+	case a.Quote == "none" && v != "" && !strings.ContainsAny(v, " \t\n\r\f\"'`=<>"):
+		return n + "=" + v
+	case a.Quote == "'" && !strings.Contains(v, "'"):
+		return n + "='" + v + "'"
+	}
+	return n + `="` + v + `"`
 }
 
 // containerTag: parser-sensitive containers and the tag the element under test must have there.
@@ -371,6 +412,12 @@ func (c Case) pairVal(p Pair, k int) (v vals.V, truthy, specified bool) {
 		}
 		n, _ := strconv.Atoi(x.S)
 		v = vals.Bool(n > p.N)
+	case "expr":
+		x, known := c.exprVal(p.X, k)
+		if !known {
+			return vals.Missing(), false, false
+		}
+		v = x
 	case "not", "tern":
 		x := c.lookup(p.Arg, k)
 		if x.K != "bool" {
@@ -503,13 +550,14 @@ type expect struct {
 	classReq  []string        // tokens that must be there, each once
 	classOpt  map[string]bool // tokens that may be there (unspecified truthiness)
 
-	styleAny  bool              // some style source exists (static, bound, v-show)
-	styleFree bool              // declarations not asserted (display rule still is)
-	style     map[string]string // property -> value
-	propFree  map[string]bool   // properties not asserted
-	display   string            // "none" | "shown" | "free" (truthiness unspecified) | "" (no v-show)
-	keptSeq   []string          // static properties no bound declaration touches, in source order
-	addedSeq  []string          // bound properties no static declaration has, in binding order
+	styleAny   bool              // some style source exists (static, bound, v-show)
+	styleFree  bool              // declarations not asserted (display rule still is)
+	style      map[string]string // property -> value
+	propFree   map[string]bool   // properties not asserted
+	display    string            // "none" | "shown" | "free" (truthiness unspecified) | "" (no v-show)
+	boundProps map[string]bool   // properties a bound declaration names: exactly one declaration of each may remain
+	keptSeq    []string          // static properties no bound declaration touches, in source order
+	addedSeq   []string          // bound properties no static declaration has, in binding order
 
 	order []string // untouched static attribute names in source order
 }
@@ -600,8 +648,9 @@ func (c Case) model(k int) *expect {
 				e.present[a.Name] = true
 			}
 		case "bind", "vbind":
-			v := c.lookup(a.Text, k)
+			v, known := c.boundVal(a, k)
 			truthy, spec := truthyOf(v)
+			spec = spec && known
 			s, sok := strForm(v)
 			switch a.Name {
 			case "class":
@@ -684,7 +733,9 @@ func (c Case) model(k int) *expect {
 			if a.Gt != nil {
 				_, truthy, spec = c.pairVal(Pair{Src: "gt", Arg: a.Text, N: *a.Gt}, k)
 			} else {
-				truthy, spec = truthyOf(c.lookup(a.Text, k))
+				v, known := c.boundVal(a, k)
+				truthy, spec = truthyOf(v)
+				spec = spec && known
 			}
 			switch {
 			case !spec:
@@ -715,6 +766,7 @@ func (c Case) model(k int) *expect {
 			e.must[a.Name] = acc
 		}
 	}
+	e.boundProps = boundSet
 	if hasStaticStyle {
 		staticSet := map[string]bool{}
 		for _, d := range parseDecls(staticStyle) {
@@ -1028,6 +1080,21 @@ func compare(e *expect, got map[string]string, order []string) string {
 			for _, p := range gp {
 				if _, ok := e.style[p]; !ok && !e.propFree[p] {
 					return fmt.Sprintf("style=%q: unexpected declaration %s:%s", got["style"], p, gm[p])
+				}
+			}
+			// a bound declaration REPLACES the static one of the same property (names compared
+			// without regard to letter case, custom properties exactly): both side by side would
+			// leave the outcome to the cascade
+			seenDecl := map[string]int{}
+			for _, d := range parseDecls(got["style"]) {
+				seenDecl[d.prop]++
+			}
+			for _, p := range keys(e.boundProps) {
+				if p == "display" && e.display != "" {
+					continue // v-show writes its own display declaration; where it stands is not asserted
+				}
+				if seenDecl[p] > 1 && !e.propFree[p] {
+					return fmt.Sprintf("style=%q: %s is declared %d times, the bound declaration must replace the static one", got["style"], p, seenDecl[p])
 				}
 			}
 			// declaration order: the kept static declarations among themselves and the added
